@@ -121,6 +121,29 @@ def check_value(vals):
     if (c.recursive is not r and c.recursive != r) or c.user_requested is not False \
         or c.internal_convert_user_code != r or set(c.optional_features) != set(fs):
       return n, 'call_options() = %r' % (c.as_tuple(),)
+    # values derived from an object that has already been hashed / compared / embedded / used as a key
+    # must be indistinguishable from freshly built equal values (caches are keyed by them)
+    import copy
+    used = converter.ConversionOptions(recursive=r, user_requested=u, internal_convert_user_code=i, optional_features=sp)
+    table = {used: 'parent'}
+    hash(used)
+    used == base  # pylint:disable=pointless-statement
+    used.to_ast()
+    fresh_call = converter.ConversionOptions(recursive=r, user_requested=False, internal_convert_user_code=r,
+                                             optional_features=fs)
+    for how, derived, fresh in (('call_options() of a used value', used.call_options(), fresh_call),
+                                ('copy.copy of a used value', copy.copy(used), base),
+                                ('copy.deepcopy of a used value', copy.deepcopy(used), base),
+                                ('call_options() of a copy', copy.copy(used).call_options(), fresh_call)):
+      n += 1
+      if not (derived == fresh) or not (fresh == derived):
+        return n, '%s is not equal to the freshly built value %r' % (how, fresh.as_tuple())
+      if hash(derived) != hash(fresh):
+        return n, '%s equals the freshly built value %r but hashes differently' % (how, fresh.as_tuple())
+      if {fresh: 1}.get(derived) != 1 or derived not in {fresh}:
+        return n, '%s is not found under the freshly built equal key' % how
+    if table.get(base) != 'parent':
+      return n, 'a used value is not found under an equal key'
     # uses
     for f in feats:
       n += 1
